@@ -21,7 +21,7 @@ fn equivalence(tier: Tier, st: &mut Stats) {
         vec![row("あ", 1, 1, 3, "user-hira"), row("a b", 1, 1, 2, "user-with-space"), row("ab", 1, 1, 0, "\"q,r\",s")],
         // the file starts with a half-width form; rows starting with '#', a zero-width no-break
         // space (not at the start of the file, where it would be a byte-order mark) and a blank
-        vec![row("\u{FF71}b", 1, 1, 4, "user-halfwidth-first"), row("#", 1, 1, 7, "user-hash "), row("\u{FEFF}a", 1, 1, 9, "user-zwnbsp"), row(" a", 1, 1, 5, ""), row("ab", 1, 1, 3, "\"q\r\nr\",crlf-inside-quotes")],
+        vec![row("\u{FF71}b", 1, 1, 4, "user-halfwidth-first"), row("#", 1, 1, 7, "user-hash "), row("\u{FEFF}a", 1, 1, 9, "user-zwnbsp"), row("", 1, 1, 1, "skipped-empty-surface-row"), row(" a", 1, 1, 5, ""), row("ab", 1, 1, 3, "\"q\r\nr\",crlf-inside-quotes")],
     ];
     let mut tasks = vec![];
     for (ui, _) in us.iter().enumerate() {
@@ -47,7 +47,9 @@ fn equivalence(tier: Tier, st: &mut Stats) {
         // twin: system lexicon extended by the user rows (after the system rows)
         let mut twin = u.clone();
         twin.dict.user = None;
-        twin.dict.sys.extend(user_rows.iter().cloned());
+        // (rows with an empty surface are not words; the twin does not carry them at all, so the
+        // two sides do not share the reader's treatment of such a row)
+        twin.dict.sys.extend(user_rows.iter().filter(|r| !r.surface.is_empty()).cloned());
         let nsys = u.dict.sys.len();
         let sentences = all_strings(&u.alphabet, if u.name.starts_with("big/") { 3 } else { max_len });
         if u.dict.user.as_ref().map_or(0, |r| crate::refmodel::RefDict::render_rows(r).len()) > 8192 {
@@ -126,7 +128,8 @@ fn equivalence(tier: Tier, st: &mut Stats) {
                         let ok = rd
                             .user
                             .as_ref()
-                            .and_then(|v| v.get(tk.word_id as usize))
+                            // word ids count the rows that became words (rows with an empty surface are skipped)
+                            .and_then(|v| v.iter().filter(|r| !r.surface.is_empty()).nth(tk.word_id as usize))
                             .map_or(false, |r| r.surface == tk.surface && r.feature == tk.feature && r.cost == tk.cost && r.left == tk.left && r.right == tk.right);
                         if !ok {
                             st.violation(Finding {
